@@ -9,6 +9,8 @@ AllUses == {"plain", "tight", "reassign"}
 PlainOnly == {"plain"}
 NoCx == {FALSE}
 NoKo == {0}
+NoHost == {FALSE}
+NoDup == {FALSE}
 KoOnly == {1, 2}
 
 \* Behaviour export (Task = "sig"): one JSON line per state reached by >= 1
@@ -27,6 +29,7 @@ InlineBehaviour ==
   [kinds |-> Kinds, sig |-> sig, sites |-> sites, opt |-> opt,
    b0 |-> [i \in DOMAIN sites |-> ShowMap(ParMap(sig, sites[i].c, i))],
    bind |-> [i \in DOMAIN sites |-> SiteBinding(i)],
-   shown |-> shown, shownD |-> shownD, shownS |-> shownS, shownL |-> shownL, targets |-> Targets, stale |-> stale, defgone |-> defgone]
+   shown |-> shown, shownD |-> shownD, shownS |-> shownS, shownL |-> shownL, targets |-> Targets, stale |-> stale, defgone |-> defgone,
+   hostval |-> hostval, twins |-> Twins]
 ExportInline == InlineDone => PrintT(<<"BEH", ToJson(InlineBehaviour)>>)
 =============================================================================
